@@ -168,7 +168,9 @@ def hyp_run(ctx, res, strategy, body, max_examples, label='', max_buckets=None,
     pass), and the search continues with the next derived seed.
     """
     import hypothesis
+    import warnings
     from hypothesis import given, settings, seed, HealthCheck, Phase
+    warnings.filterwarnings('ignore', category=hypothesis.errors.HypothesisWarning)
 
     if max_buckets is None:
         max_buckets = ctx.pick(3, 12)
